@@ -7,7 +7,7 @@ def run(ctx):
                               "c13_decision_as_configured", "c13_cors_as_configured", "c13_client_kind_irrelevant", "c13_odd_entry_matches_nothing",
                               "c13_trimset_loader_refuted", "c13_loopback_prefix_refuted"])],
         harness=("TestVerif_C13", ["kmd/common.go", "kmd/creds.go", "kmd/c13.go"]),
-        cases=("CasesC13.v", [("c13_mismatches", "CanRedirectToURL / CorsOriginAllowed / generic CORS = model on the components url.Parse delivers, 12 client configurations x {client with a secret, public client}, pattern verdicts per configured pattern (match / no match / refused by the regexp library)"),
+        cases=("CasesC13.v", [("c13_mismatches", "CanRedirectToURL / CorsOriginAllowed / generic CORS = model on the components url.Parse delivers, 12 client configurations x {client with a secret, public client} x {other client options on, off}, pattern verdicts per configured pattern (match / no match / refused by the regexp library)"),
                               ("c13_form_mismatches", "clients whose single allowed_redirect_domains entry is written in an odd form (URL form with/without slash, path, port, http; scheme-relative; upper case; leading/trailing dot; surrounding spaces; wildcard; host:port) loaded through the real loader, redirect_uri hosts derived from the entry (truncations, sub- and look-alike names, decorated spellings): CanRedirectToURL / CorsOriginAllowed = model on the entry AS CONFIGURED", "CasesC13forms.idx"),
                               ("c13_loader_mismatches", "the domain list the running state holds per client after loadVerifyConfigFile = the model's loaded_domains of the configured strings (identity)", "CasesC13loader.idx"),
                               ("c13_split_mismatches", "net/url.Parse = Gallina splitter on members and near-misses of the conservative https grammar", "CasesC13split.idx")], "CasesC13.idx"),
